@@ -33,16 +33,16 @@ PIPE_TIE = ["Bridge/BrC04.vo"]        # stage order of expr.Compile / Eval / Run
 WALK_TIE = ["Bridge/BrC10.vo"]
 TIES = {
     "C02": RUN_TIE + PIPE_TIE + WALK_TIE,
-    "C03": RUN_TIE + PIPE_TIE + ["Bridge/BrTables.vo"],
+    "C03": RUN_TIE + PIPE_TIE + OPT_TIE + ["Bridge/BrTables.vo"],
     "C04": FRONT_TIE + CHECK_TIE + OPT_TIE + RUN_TIE + PIPE_TIE + WALK_TIE + ["Bridge/BrSource.vo"],
     "C06": ["Bridge/BrRuntime.vo", "Bridge/BrSchemes.vo"],
     "C07": ["Bridge/BrRuntime.vo"],
     "C10": PIPE_TIE + OPT_TIE + ["Bridge/BrTables.vo"],
     "C13": FRONT_TIE + CHECK_TIE + RUN_TIE + PIPE_TIE,
-    "C15": RUN_TIE + CHECK_TIE + PIPE_TIE,
+    "C15": RUN_TIE + CHECK_TIE + PIPE_TIE + OPT_TIE,
     "C16": RUN_TIE + ["Bridge/BrChecker.vo"],
-    "C17": RUN_TIE + PIPE_TIE + WALK_TIE + ["Bridge/BrChecker.vo"],
-    "C18": RUN_TIE + PIPE_TIE,
+    "C17": RUN_TIE + PIPE_TIE + WALK_TIE + OPT_TIE + ["Bridge/BrChecker.vo"],
+    "C18": RUN_TIE + PIPE_TIE + OPT_TIE,
 }
 for _pid, _extra in TIES.items():
     _t = PROPS[_pid]["targets"]
